@@ -13,6 +13,15 @@ from .c01 import each, _single_return
 from .c07 import appends
 
 FLOOR = 33
+ANCHORS = [
+    'field.Field.fftn',
+    'field.Field.ifftn',
+    'field.Field.rfftn',
+    'field.Field.irfftn',
+    'field.Field._fftn',
+    'mesh.Mesh.fftn',
+    'mesh.Mesh.ifftn',
+]   # functions whose code the property is anchored in (mutation analysis, evidence)
 
 TABLE = {
     "field.Field.fftn": ("spfft.fftshift(spfft.fftn(self.array, axes=A, **kwargs), axes=A)", "self.mesh.fftn()", False),
